@@ -384,7 +384,7 @@ def unrename_locals(prog):
 # ---------------------------------------------------------------------------------------- P13 (new pure locals are inlined)
 PURE_CALLS = {"len", "range", "list", "tuple", "zip", "enumerate", "sorted", "dict", "set", "min", "max", "sum", "abs", "isinstance", "hasattr", "bool", "int", "float",
               "vertcat", "horzcat", "veccat", "vvcat", "vcat", "hcat", "MX", "DM", "repmat", "reversed", "any", "all",
-              "depends_on", "symvar", "is_equal", "str", "repr", "getattr", "type"}
+              "depends_on", "symvar", "is_equal", "str", "repr", "getattr", "type", "partial"}
 
 
 PURE_METHODS = {"numel", "nnz", "size1", "size2", "sparsity", "name", "dim", "keys", "values", "items", "get", "index", "count", "is_scalar", "is_symbolic", "is_constant",
@@ -1188,6 +1188,17 @@ class _Canon(ast.NodeTransformer):
             test = ast.Call(func=ast.Name(id="hasattr", ctx=ast.Load()), args=[copy.deepcopy(n.args[0]), copy.deepcopy(n.args[1])], keywords=[])
             get = ast.Call(func=ast.Name(id="getattr", ctx=ast.Load()), args=[n.args[0], n.args[1]], keywords=[])
             return ast.copy_location(ast.IfExp(test=ast.copy_location(test, n), body=ast.copy_location(get, n), orelse=n.args[2]), n)
+        # P38: partial(f, a, k=v)(b, m=w) -> f(a, b, k=v, m=w)
+        if isinstance(n.func, ast.Call) and ast.unparse(n.func.func).split(".")[-1] == "partial" and n.func.args and not any(isinstance(a, ast.Starred) for a in n.func.args + n.args) \
+                and all(k.arg for k in n.func.keywords + n.keywords):
+            self.count += 1
+            over = {k.arg for k in n.keywords}
+            return ast.copy_location(ast.Call(func=n.func.args[0], args=n.func.args[1:] + n.args, keywords=[k for k in n.func.keywords if k.arg not in over] + n.keywords), n)
+        # P36: getattr(o, 'name') with a constant identifier (not a dunder) -> o.name
+        if isinstance(n.func, ast.Name) and n.func.id == "getattr" and len(n.args) == 2 and not n.keywords and isinstance(n.args[1], ast.Constant) and isinstance(n.args[1].value, str) \
+                and n.args[1].value.isidentifier() and not n.args[1].value.startswith("__"):
+            self.count += 1
+            return ast.copy_location(ast.Attribute(value=n.args[0], attr=n.args[1].value, ctx=ast.Load()), n)
         # P16: f(**{'a': x, 'b': y}) -> f(a=x, b=y)
         if any(k.arg is None and isinstance(k.value, ast.Dict) and all(isinstance(kk, ast.Constant) and isinstance(kk.value, str) for kk in k.value.keys) for k in n.keywords):
             kws = []
@@ -1442,6 +1453,209 @@ def explicit_base_calls(prog):
                         c.func.value = ast.copy_location(copy.deepcopy(cls.bases[0]), c.func.value)
                         c.args = [ast.copy_location(ast.Name(id=me, ctx=ast.Load()), c)] + c.args
                         count += 1
+        if count:
+            ast.fix_missing_locations(m.tree)
+    return count
+
+
+BASELINE_STATICMETHODS = {"Ocp.load", "BSplineSignal.register", "Stage._parse_grid"}   # frozen: static methods of the reference tree (P39 leaves them alone)
+
+
+def methodise(prog):
+    """P35: class-level `name = partialmethod(f, c1, .., k=c)` with f a method of the same class -> a method `name` whose body is f's
+    with the bound parameters replaced by the constants.
+    P39: a method that the reference tree does not know as static and that is decorated @staticmethod gets a `self` parameter
+    back (its callers reach it through self.<name>(..) either way; Class.<name>(..) calls get the receiver inserted)."""
+    from .model import FunctionInfo
+    count = 0
+    for m in prog.modules.values():
+        for cls in [n for n in m.tree.body if isinstance(n, ast.ClassDef)]:
+            ci = m.classes.get(cls.name)
+            defs = {st.name: st for st in cls.body if isinstance(st, ast.FunctionDef)}
+            for idx, st in enumerate(list(cls.body)):
+                if isinstance(st, ast.Assign) and len(st.targets) == 1 and isinstance(st.targets[0], ast.Name) and isinstance(st.value, ast.Call) \
+                        and ast.unparse(st.value.func).split(".")[-1] == "partialmethod" and st.value.args and isinstance(st.value.args[0], ast.Name) and st.value.args[0].id in defs:
+                    f = defs[st.value.args[0].id]
+                    bound_pos = st.value.args[1:]
+                    bound_kw = {k.arg: k.value for k in st.value.keywords if k.arg}
+                    params = f.args.args
+                    if f.args.vararg or f.args.kwarg or len(bound_pos) > len(params) - 1 or not all(isinstance(v, ast.Constant) for v in list(bound_pos) + list(bound_kw.values())):
+                        continue
+                    bind = {params[1 + i].arg: v for i, v in enumerate(bound_pos)}
+                    bind.update(bound_kw)
+                    if any(isinstance(x, ast.Name) and x.id in bind and isinstance(x.ctx, ast.Store) for x in ast.walk(f)):
+                        continue
+                    g = copy.deepcopy(f)
+                    g.name = st.targets[0].id
+                    nd = len(g.args.defaults)
+                    firstdef = len(g.args.args) - nd
+                    keep, keepdef = [], []
+                    for i, a in enumerate(g.args.args):
+                        if a.arg in bind:
+                            continue
+                        keep.append(a)
+                        if i >= firstdef:
+                            keepdef.append(g.args.defaults[i - firstdef])
+                    g.args.args, g.args.defaults = keep, keepdef
+
+                    class S(ast.NodeTransformer):
+                        def visit_Name(self, x):
+                            if x.id in bind and isinstance(x.ctx, ast.Load):
+                                return ast.copy_location(copy.deepcopy(bind[x.id]), x)
+                            return x
+                    g.body = [S().visit(b) for b in g.body]
+                    if g.body and isinstance(g.body[0], ast.Expr) and isinstance(g.body[0].value, ast.Constant) and isinstance(g.body[0].value.value, str) and len(g.body) > 1:
+                        g.body = g.body[1:]
+                    ast.copy_location(g, st)
+                    cls.body[cls.body.index(st)] = g
+                    if ci is not None:
+                        ci.methods[g.name] = FunctionInfo(g, m, cls=ci)
+                    count += 1
+            for st in cls.body:
+                if isinstance(st, ast.FunctionDef) and any(isinstance(d, ast.Name) and d.id == "staticmethod" for d in st.decorator_list) \
+                        and "%s.%s" % (cls.name, st.name) not in BASELINE_STATICMETHODS and not any(a.arg == "self" for a in st.args.args):
+                    st.decorator_list = [d for d in st.decorator_list if not (isinstance(d, ast.Name) and d.id == "staticmethod")]
+                    st.args.args.insert(0, ast.arg(arg="self"))
+                    if ci is not None:
+                        ci.methods[st.name] = FunctionInfo(st, m, cls=ci)
+                    # Class.name(..) calls anywhere in the module get a receiver
+                    for c in ast.walk(m.tree):
+                        if isinstance(c, ast.Call) and isinstance(c.func, ast.Attribute) and c.func.attr == st.name and isinstance(c.func.value, ast.Name) and c.func.value.id == cls.name:
+                            c.func.value = ast.Name(id="self", ctx=ast.Load())
+                    count += 1
+        if count:
+            ast.fix_missing_locations(m.tree)
+    return count
+
+
+def closures_from_method_refs(prog, known):
+    """P40: a *new* method of the host's class handed over as a callback - `self.m` or `functools.partial(self.m, k=v)` as an argument
+    of a call - is turned back into the nested function it was extracted from: `def m(<free parameters>): <body of m>` in front of
+    the statement, bound keyword parameters replaced by the bound expressions (plain names only)."""
+    if known is None:
+        return 0
+    count = 0
+    for m in prog.modules.values():
+        for cls in [n for n in m.tree.body if isinstance(n, ast.ClassDef)]:
+            defs = {st.name: st for st in cls.body if isinstance(st, ast.FunctionDef)}
+            new = {nm: d for nm, d in defs.items() if "%s.%s" % (cls.name, nm) not in known and d.args.args and not d.args.vararg and not d.args.kwarg}
+            if not new:
+                continue
+            for host in [d for nm, d in defs.items() if nm not in new and d.args.args]:
+                me = host.args.args[0].arg
+
+                def ref(e):
+                    """(method def, bound kwargs) if e is self.m / partial(self.m, k=name)"""
+                    if isinstance(e, ast.Attribute) and isinstance(e.value, ast.Name) and e.value.id == me and e.attr in new:
+                        return new[e.attr], {}
+                    if isinstance(e, ast.Call) and ast.unparse(e.func).split(".")[-1] == "partial" and e.args and not e.args[1:] and ref(e.args[0]) and all(k.arg and isinstance(k.value, (ast.Name, ast.Constant)) for k in e.keywords):
+                        return ref(e.args[0])[0], {k.arg: k.value for k in e.keywords}
+                    return None
+
+                def rec(lst):
+                    nonlocal count
+                    i = 0
+                    while i < len(lst):
+                        st = lst[i]
+                        if isinstance(st, (ast.FunctionDef, ast.ClassDef)):
+                            i += 1
+                            continue
+                        for fld in ("body", "orelse", "finalbody"):
+                            if hasattr(st, fld) and isinstance(getattr(st, fld), list):
+                                rec(getattr(st, fld))
+                        heads = [st.value] if isinstance(st, (ast.Expr, ast.Assign, ast.Return)) and st.value is not None else []
+                        made = []
+                        for h in heads:
+                            for c in [x for x in ast.walk(h) if isinstance(x, ast.Call)]:
+                                for j, a in enumerate(c.args):
+                                    r = ref(a)
+                                    if r is None:
+                                        continue
+                                    d, bound = r
+                                    if any(isinstance(x, ast.Name) and x.id in bound and isinstance(x.ctx, ast.Store) for x in ast.walk(d)):
+                                        continue
+                                    g = copy.deepcopy(d)
+                                    g.decorator_list = []
+                                    selfname = g.args.args[0].arg
+                                    nd = len(g.args.defaults)
+                                    first = len(g.args.args) - nd
+                                    keep, keepdef = [], []
+                                    for q, prm in enumerate(g.args.args):
+                                        if q == 0 or prm.arg in bound:
+                                            continue
+                                        keep.append(prm)
+                                        if q >= first:
+                                            keepdef.append(g.args.defaults[q - first])
+                                    g.args.args, g.args.defaults = keep, keepdef
+                                    sub = dict(bound)
+                                    sub[selfname] = ast.Name(id=me, ctx=ast.Load())
+
+                                    class S(ast.NodeTransformer):
+                                        def visit_Name(self, x):
+                                            if x.id in sub and isinstance(x.ctx, ast.Load):
+                                                return ast.copy_location(copy.deepcopy(sub[x.id]), x)
+                                            return x
+                                    g.body = [S().visit(b) for b in g.body]
+                                    if isinstance(g.body[0], ast.Expr) and isinstance(g.body[0].value, ast.Constant) and isinstance(g.body[0].value.value, str) and len(g.body) > 1:
+                                        g.body = g.body[1:]
+                                    c.args[j] = ast.copy_location(ast.Name(id=g.name, ctx=ast.Load()), a)
+                                    made.append(ast.copy_location(g, st))
+                                    count += 1
+                        if made:
+                            lst[i:i] = made
+                            i += len(made)
+                        i += 1
+                rec(host.body)
+        if count:
+            ast.fix_missing_locations(m.tree)
+    return count
+
+
+def partial_to_lambda(prog, known):
+    """P41: functools.partial(F, a, ..) handed over as a value, F a *new* module-level function whose body is one return ->
+    the lambda it stands for: `lambda <remaining parameters>: <returned expression with the bound parameters replaced>`
+    (bound arguments must be plain names or constants, so that evaluating them later changes nothing)."""
+    if known is None:
+        return 0
+    count = 0
+    for m in prog.modules.values():
+        new = {}
+        for st in m.tree.body:
+            if isinstance(st, ast.FunctionDef) and st.name not in known and not st.args.vararg and not st.args.kwarg and not st.decorator_list:
+                body = [b for b in st.body if not (isinstance(b, ast.Expr) and isinstance(b.value, ast.Constant))]
+                if len(body) == 1 and isinstance(body[0], ast.Return) and body[0].value is not None:
+                    new[st.name] = (st, body[0].value)
+        if not new:
+            continue
+
+        class T(ast.NodeTransformer):
+            def visit_Call(self, n):
+                nonlocal count
+                self.generic_visit(n)
+                if ast.unparse(n.func).split(".")[-1] == "partial" and n.args and isinstance(n.args[0], ast.Name) and n.args[0].id in new \
+                        and all(isinstance(a, (ast.Name, ast.Constant)) for a in n.args[1:]) and all(k.arg and isinstance(k.value, (ast.Name, ast.Constant)) for k in n.keywords):
+                    d, ret = new[n.args[0].id]
+                    params = [a.arg for a in d.args.args]
+                    if len(n.args) - 1 > len(params):
+                        return n
+                    bind = dict(zip(params, n.args[1:]))
+                    bind.update({k.arg: k.value for k in n.keywords})
+                    free = [p for p in params if p not in bind]
+                    used = {x.id for x in ast.walk(ret) if isinstance(x, ast.Name)}
+                    if any(isinstance(v, ast.Name) and v.id in free for v in bind.values()):
+                        return n
+
+                    class S(ast.NodeTransformer):
+                        def visit_Name(self, x):
+                            if x.id in bind and isinstance(x.ctx, ast.Load):
+                                return ast.copy_location(copy.deepcopy(bind[x.id]), x)
+                            return x
+                    body = S().visit(copy.deepcopy(ret))
+                    count += 1
+                    lam = ast.Lambda(args=ast.arguments(posonlyargs=[], args=[ast.arg(arg=p) for p in free], vararg=None, kwonlyargs=[], kw_defaults=[], kwarg=None, defaults=[]), body=body)
+                    return ast.copy_location(lam, n)
+                return n
+        T().visit(m.tree)
         if count:
             ast.fix_missing_locations(m.tree)
     return count
